@@ -263,6 +263,11 @@ fn emit_nodes(cx: &mut Ctx, out: &mut String, nodes: &[Node], ind: usize) {
                 emit_nodes(cx, &mut inner, items, ind + 1);
                 let ipad = "    ".repeat(ind + 1);
                 match ctx.as_str() {
+                    "if_both" => {
+                        let mut inner2 = String::new();
+                        emit_nodes(cx, &mut inner2, items, ind + 1);
+                        let _ = write!(out, "{pad}if (true) {{\n{inner}{pad}}} else {{\n{inner2}{pad}}}\n");
+                    }
                     "if_accept" => {
                         let _ = write!(out, "{pad}if (true) {{\n{inner}{pad}}}\n");
                     }
